@@ -87,6 +87,13 @@ func (dec *Decoder) readStringAsBytes(utf16Length int) (data []byte, safe bool) 
 			return
 		}
 		if !safe {
+			if utf16Length < 0 {
+				// the declared length ends inside a surrogate pair
+				if dec.Error == nil {
+					dec.Error = ErrInvalidUTF8
+				}
+				return
+			}
 			safe = true
 			data = make([]byte, 0, utf16Length*3)
 		}
